@@ -2093,7 +2093,11 @@ def _contains(token: TokenT, left: object, right: object) -> bool:
     if isinstance(left, str):
         return _str(right) in left
     if isinstance(left, Collection):
-        return right in left
+        try:
+            return right in left
+        except TypeError as err:
+            # An unhashable `right` and a mapping or set on the left.
+            raise LiquidTypeError(str(err), token=token) from err
 
     raise LiquidTypeError(
         f"'in' and 'contains' are not supported between '{left.__class__.__name__}' "
